@@ -70,6 +70,14 @@ def load(f, **options):  # type: (typing.IO, **typing.Any) -> canmatrix.CanMatri
     is_j1939 = False
     db = canmatrix.CanMatrix()
 
+    def frame_by_number(text):  # type: (str) -> typing.Optional[canmatrix.Frame]
+        # description and parameter sections give the identifier number without a usable frame format
+        number = int(text) & canmatrix.ArbitrationId.extended_id_mask
+        for candidate in db.frames:
+            if candidate.arbitration_id.id == number:
+                return candidate
+        return None
+
     mode = ''
     for line in f:
         line = line.decode(dbf_import_encoding).strip()
@@ -81,7 +89,7 @@ def load(f, **options):  # type: (typing.IO, **typing.Any) -> canmatrix.CanMatri
             else:
                 (bo_id, tem_s, signal_name, comment) = line.split(' ', 3)
                 comment = comment.replace('"', '').replace(';', '')
-                db.frame_by_id(canmatrix.ArbitrationId.from_compound_integer(int(bo_id))).signal_by_name(
+                frame_by_number(bo_id).signal_by_name(
                     signal_name).add_comment(comment)
 
         if mode == 'BUDescription':
@@ -100,7 +108,7 @@ def load(f, **options):  # type: (typing.IO, **typing.Any) -> canmatrix.CanMatri
             else:
                 (bo_id, tem_s, comment) = line.split(' ', 2)
                 comment = comment.replace('"', '').replace(';', '')
-                frame = db.frame_by_id(canmatrix.ArbitrationId.from_compound_integer(int(bo_id)))
+                frame = frame_by_number(bo_id)
                 if frame:
                     frame.add_comment(comment)
 
@@ -109,8 +117,7 @@ def load(f, **options):  # type: (typing.IO, **typing.Any) -> canmatrix.CanMatri
                 mode = ''
             else:
                 (bo_id, tem_s, attrib, value) = line.split(',', 3)
-                db.frame_by_id(canmatrix.ArbitrationId.from_compound_integer(
-                    int(bo_id))).add_attribute(
+                frame_by_number(bo_id).add_attribute(
                     attrib.replace('"', ''),
                     value.replace('"', ''))
 
@@ -134,7 +141,7 @@ def load(f, **options):  # type: (typing.IO, **typing.Any) -> canmatrix.CanMatri
                 mode = ''
             else:
                 (bo_id, tem_s, signal_name, attrib, value) = line.split(',', 4)
-                db.frame_by_id(canmatrix.ArbitrationId.from_compound_integer(int(bo_id)))\
+                frame_by_number(bo_id)\
                     .signal_by_name(signal_name)\
                     .add_attribute(attrib.replace('"', ''), value[1:-1])
 
@@ -223,11 +230,15 @@ def load(f, **options):  # type: (typing.IO, **typing.Any) -> canmatrix.CanMatri
                 
                 if is_j1939:
                     new_frame.arbitration_id.pgn = int(arb_id)
+                elif extended == 'X':
+                    # the frame format column decides: a 29 bit identifier must not be range-checked as 11 bit first
+                    logger.debug("Extended")
+                    new_frame.arbitration_id = canmatrix.ArbitrationId(
+                        int(arb_id) & canmatrix.ArbitrationId.extended_id_mask, extended=True)
                 else:
                     new_frame.arbitration_id = canmatrix.ArbitrationId.from_compound_integer(int(arb_id))
                 #   Frame(int(Id), name, size, transmitter))
                 if extended == 'X':
-                    logger.debug("Extended")
                     new_frame.arbitration_id.extended = True
 
             if line.startswith("[NODE]"):
